@@ -26,14 +26,14 @@ ls seeded | xargs -P ${JOBS:-10} -I{} sh -c '
   for p in $props; do
     out=$(bin/dlint -refactoring $patch -property $p 2>&1); code=$?
     if [ $code -eq 3 ]; then res=UNAVAILABLE; break; fi
-    if [ $code -ne 1 ]; then res="MISSED($p)"; fi
+    if [ $code -ne 1 ]; then res="MISSED($p)"; elif ! echo "$out" | grep -q "^ALARM $p violated"; then res="UNDECIDED-ONLY($p)"; fi
   done
   echo $res > '"$tmp"'/{}.res'
 bad=0
 for id in $(ls seeded); do
   r=$(cat $tmp/$id.res)
   echo "$id $r"
-  case "$r" in MISSED*) bad=1;; esac
+  case "$r" in MISSED*|UNDECIDED-ONLY*) bad=1;; esac
 done
 rm -rf "$tmp"
 exit $bad
